@@ -195,6 +195,26 @@ async fn prog_tcp(l: Log, me: usize, n: usize, v6: bool) -> turmoil::Result {
     let name = format!("h{me}");
     if me == 0 {
         let lst = TcpListener::bind((if v6 { "::" } else { "0.0.0.0" }, 80)).await?;
+        // the server host also talks to itself over the loopback address
+        {
+            let (l3, name3) = (l.clone(), name.clone());
+            tokio::task::spawn_local(async move {
+                tokio::time::sleep(Duration::from_millis(2)).await;
+                let r = tokio::time::timeout(Duration::from_millis(40), TcpStream::connect((if v6 { "::1" } else { "127.0.0.1" }, 80))).await;
+                match r {
+                    Ok(Ok(mut st)) => {
+                        for i in 0..3u8 {
+                            let w = st.write_all(&[0xee, i]).await;
+                            let mut b = [0u8; 8];
+                            let rr = tokio::time::timeout(Duration::from_millis(30), st.read(&mut b)).await;
+                            log(&l3, &name3, format!("loopback msg {i} write {:?} reply {:?}", w.map_err(|e| errk(&e)), rr.map(|x| x.map(|n| b[..n].to_vec()).map_err(|e| errk(&e))).map_err(|_| "timeout")));
+                        }
+                    }
+                    Ok(Err(e)) => log(&l3, &name3, format!("loopback connect failed {}", errk(&e))),
+                    Err(_) => log(&l3, &name3, "loopback connect timed out".into()),
+                }
+            });
+        }
         let mut k = 0;
         loop {
             let (mut st, from) = lst.accept().await?;
@@ -321,9 +341,16 @@ async fn prog_fs(l: Log, me: usize, _n: usize, _v6: bool) -> turmoil::Result {
     log(&l, &name, format!("at start /d holds {names:?}"));
     let r = fs::create_dir_all("/d");
     log(&l, &name, format!("mkdir {:?}", r.map_err(|e| errk(&e))));
+    // a handle that stays open for the whole life of this incarnation
+    let keep = fs::OpenOptions::new().read(true).write(true).create(true).open("/d/keep");
     let mut k = 0u32;
     loop {
         k += 1;
+        if let Ok(h) = &keep {
+            use std::os::unix::fs::FileExt;
+            let r = h.write_at(&[k as u8; 4], (k % 3) as u64 * 4);
+            log(&l, &name, format!("long-lived handle write #{k} {:?}", r.map_err(|e| format!("{:?}: {e}", e.kind()))));
+        }
         // files are created in a host- and round-dependent order
         for j in 0..3u32 {
             let f = format!("/d/f{}", (j * 7 + me as u32 + k) % 5);
@@ -582,7 +609,17 @@ pub static DIGESTS: Mutex<BTreeMap<Vec<u32>, u64>> = Mutex::new(BTreeMap::new())
 /// the child processes).
 pub fn scenario(ch: &mut Chooser, thorough: bool, child: bool) -> Exec {
     let cfg = cfg_from(ch, thorough);
-    let t1 = run_trace(&cfg, false);
+    // the first run happens on a brand-new OS thread (no thread-local left-overs of earlier
+    // simulations), the second on this worker thread, which has run many simulations before
+    let t1 = if child {
+        run_trace(&cfg, false)
+    } else {
+        let c2 = cfg.clone();
+        match std::thread::Builder::new().stack_size(8 << 20).spawn(move || run_trace(&c2, false)).map(|h| h.join()) {
+            Ok(Ok(t)) => t,
+            _ => vec!["R the run on a fresh thread panicked".to_string()],
+        }
+    };
     let d1 = Digest::of64(&t1);
     DIGESTS.lock().unwrap().insert(ch.choices(), d1);
     let mut feats: Vec<&'static str> = vec![];
